@@ -8,7 +8,7 @@ PID = 'C09'
 RULE = ('scan(accumulator, seed, reduce, terminator) and the operators defined through it (count, sum, mean, min, max, '
         'variance, to_list, to_array, batch, distinct_until_changed, dist.update) with accumulators that mutate and return their accumulator '
         '(list append), seeds given as values and as factories, reduce on/off, terminator on/off, on 1-4 interleaved keys '
-        'with empty keys and slots reused by later lifetimes, lifetimes ended by a mux error instead of a completion (key created again later), and on plain observables; values emitted by reduce are handed to a consumer that mutates them in place (nothing reachable from an emitted value may be the seed or another key\'s state). Oracle: Python left fold per '
+        'with empty keys and slots reused by later lifetimes, lifetimes ended by a mux error instead of a completion (key created again later), and on plain observables; values emitted by reduce are handed to a consumer that mutates them in place (nothing reachable from an emitted value may be the seed or another key\'s state). a scale family: accumulators beyond 2**31 and 2**53, keys of several hundred items, hundreds of live keys. Oracle: Python left fold per '
         'lifetime (functools-style), evaluated independently for every lifetime with a fresh seed. non-trivial = >= 2 '
         'lifetimes with >= 2 items; distinct = distinct JSON')
 ASSUMPTIONS = ['accumulators return values of the seed type (typed state arrays); accumulators are total or raise']
@@ -61,6 +61,20 @@ def generate(rng, tier):
                 trace = muxgen.gen_trace(rng, typ, nkeys=rng.choice([1, 2]), bursts=True, max_items=rng.choice([None, 3]))
             case['trace'] = error_ended(rng, trace)
         cases.append(case)
+    for _ in range({'quick': 12, 'thorough': 300, 'search': 3}[tier]):
+        # scale: accumulators beyond 2**31 / 2**53 / close to 2**63, long keys, hundreds of live keys
+        node = rng.choice([['scan', ['add'], enc(rng.choice([0, 2 ** 31 - 5, 2 ** 40])), rng.randint(0, 1), None], ['count', 0], ['count', 1],
+                           ['scan', ['max'], enc(0), 1, None], ['to_list'], ['to_array', 'q'], ['sum', None, 1], ['batch', 300],
+                           ['scan', ['mul'], enc(3), 0, None]])
+        shape = rng.choice(['long', 'long2', 'many', 'long_reuse'])
+        trace = muxgen.gen_trace_scale(rng, shape)
+        if node[0] == 'scan' and node[1] == ['add'] and rng.random() < 0.7:
+            bigv = rng.choice([2 ** 30, 2 ** 31, 2 ** 52])
+            trace = [(['n', e[1], enc(bigv + dec(e[2]))] if e[0] == 'n' else e) for e in trace]
+        if node[0] == 'scan' and node[1] == ['mul']:
+            trace = [e for e in trace if e[0] != 'n'] if False else [(['n', e[1], enc(1 + dec(e[2]) % 2)] if e[0] == 'n' else e) for e in trace[:60]] + \
+                [e for e in trace[60:] if e[0] != 'n']
+        cases.append({'ast': [node], 'trace': trace, 'plain': False, 'scale': True})
     return cases
 
 
